@@ -17,9 +17,14 @@ M = 'cell_type_mapper.taxonomy.utils.'
 def wf_tree(t, parts=('levels', 'child_exists', 'has_parent', 'one_parent', 'once', 'rows')):
     """clauses of wf_tree(t) as contract text; `parts` selects them"""
     H = f"{t}['hierarchy']"
-    up = f"{t}[{H}[k]]"          # node table of the parent level of pair k
-    dn = f"{t}[{H}[k + 1]]"      # node table of the child level of pair k
+    # parent-side clauses are indexed by the parent level (k, k + 1), the child-side clause by
+    # the child level (k - 1, k): the solver then finds the instance from the level it holds
+    up = f"{t}[{H}[k]]"
+    dn = f"{t}[{H}[k + 1]]"
     pairs = f"for k in range(len({H}) - 1)"
+    cup = f"{t}[{H}[k - 1]]"
+    cdn = f"{t}[{H}[k]]"
+    cpairs = f"for k in range(1, len({H}))"
     out = {
         'levels': [
             f"len({H}) >= 1", f"dupfree({H})",
@@ -28,7 +33,8 @@ def wf_tree(t, parts=('levels', 'child_exists', 'has_parent', 'one_parent', 'onc
         # every listed child exists at the next level
         'child_exists': [f"all({up}[p][i] in {dn} {pairs} for p in {up} for i in range(len({up}[p])))"],
         # every node of the next level is listed by some parent
-        'has_parent': [f"all(any(c in {up}[p] for p in {up}) {pairs} for c in {dn})"],
+        # (membership written with first_index: `first_index(xs, x) < len(xs)` is `x in xs`)
+        'has_parent': [f"all(any(first_index({cup}[p], c) < len({cup}[p]) for p in {cup}) {cpairs} for c in {cdn})"],
         # ... by exactly one parent
         'one_parent': [f"all(implies({up}[p][i] == {up}[q][j], p == q) {pairs} "
                        f"for p in {up} for q in {up} for i in range(len({up}[p])) for j in range(len({up}[q])))"],
@@ -94,13 +100,15 @@ C2P_COMPLETE = ("all({t}[{H}[k - 1]][p][i] in {r}[{H}[k]] and {r}[{H}[k]][{t}[{H
                 "for i in range(len({t}[{H}[k - 1]][p])))")
 C2P_SOUND = ("all({r}[{H}[k]][c] in {t}[{H}[k - 1]] and c in {t}[{H}[k - 1]][{r}[{H}[k]][c]] "
              "for k in range({lo}, len({H})) for c in {r}[{H}[k]])")
+C2P_TOTAL = ("all(c in {r}[{H}[k]] for k in range({lo}, len({H})) for c in {t}[{H}[k]])")
 C2P_KEYS = ["all({H}[k] in {r} for k in range({lo}, len({H})))",
             "all(any(l == {H}[k] for k in range({lo}, len({H}))) for l in {r})"]
 
 
-def c2p_clauses(t, r, lo):
+def c2p_clauses(t, r, lo, total=False):
     H = f"{t}['hierarchy']"
-    return [s.format(t=t, H=H, r=r, lo=lo) for s in C2P_KEYS + [C2P_COMPLETE, C2P_SOUND]]
+    cl = C2P_KEYS + [C2P_COMPLETE, C2P_SOUND] + ([C2P_TOTAL] if total else [])
+    return [s.format(t=t, H=H, r=r, lo=lo) for s in cl]
 
 
 def _c2p_loops():
@@ -137,8 +145,10 @@ contract(
     params=dict(tree_data='Tree'),
     returns='Dict[Name,Dict[Name,Name]]',
     locals=dict(result='Dict[Name,Dict[Name,Name]]'),
-    requires=wf_tree(T_, ('levels', 'one_parent')),
-    ensures=c2p_clauses(T_, 'result', '1'),
+    requires=wf_tree(T_, ('levels', 'has_parent', 'one_parent')),
+    # (the last clause - every node below the top level has an entry - follows from the
+    # "some parent lists it" clause of wf_tree; it is what makes parents() KeyError-free)
+    ensures=c2p_clauses(T_, 'result', '1', total=True),
     loops=_c2p_loops(),
 )
 
@@ -146,9 +156,10 @@ contract(
 # ---------------------------------------------------------------------------------------------
 # validate_taxonomy_tree: normal return <=> wf_tree
 # ---------------------------------------------------------------------------------------------
-from pyvc.ext.taxonomy import register_rec_keys   # noqa: E402
+from pyvc.ext.taxonomy import register_rec_keys, register_rec_pop   # noqa: E402
 
 register_rec_keys('Tree')
+register_rec_pop('Tree')
 
 V_ = 'taxonomy_tree'
 VH = "taxonomy_tree['hierarchy']"
@@ -169,6 +180,7 @@ def _validate_loops():
     up, cur = f"{t}[parent_level]", "child_to_parent[child_level]"
     keys = [f"all({H}[j] in child_to_parent for j in range(len({H})))"]
     pair_done = [c.replace(f"for k in range(len({H}) - 1)", "for k in range(_i)")
+                  .replace(f"for k in range(1, len({H}))", "for k in range(1, _i + 1)")
                  for c in wf_tree(t, ('child_exists', 'has_parent', 'one_parent'))]
     empty_from = lambda lo: (f"implies(dupfree({H}), all(len(child_to_parent[{H}[j]]) == 0 "   # noqa: E731
                              f"for j in range({lo}, len({H}))))")
@@ -178,7 +190,7 @@ def _validate_loops():
     return {
         2: [f"all({H}[j] in child_to_parent and len(child_to_parent[{H}[j]]) == 0 for j in range(_i))"],
         3: keys + pair_done + [empty_from("_i + 1")],
-        4: [f"all(any(x in {up}[p] for p in _seen) for x in with_parent)",
+        4: [f"all(any(first_index({up}[p], x) < len({up}[p]) for p in _seen) for x in with_parent)",
             f"all({up}[p][i] in with_parent for p in _seen for i in range(len({up}[p])))"],
         5: ["all(c in with_parent for c in _seen)"],
         6: keys + [empty_from("_i3 + 2"), seen_done,
@@ -203,14 +215,22 @@ def _validate_loops():
     }
 
 
-def mutate_tree(rng, tree):
-    """one edit of a valid tree (may or may not keep it valid)"""
+def mutate_tree(rng, tree, findings=True):
+    """one edit of a valid tree (may or may not keep it valid); findings=False leaves out the
+    edits that reproduce S-9 / S-10 / the empty-hierarchy IndexError (reported at the validator)"""
     import copy
     t = copy.deepcopy(tree)
     H = t['hierarchy']
     kind = rng.choice(['none', 'none', 'drop_key', 'extra_key', 'dup_level', 'drop_child_node',
                        'orphan', 'second_parent', 'dup_child', 'dup_row', 'dup_row_same_leaf',
-                       'no_hierarchy', 'int_node', 'bad_level', 'ghost_child'])
+                       'no_hierarchy', 'int_node', 'bad_level', 'ghost_child', 'self_parent',
+                       'empty_hierarchy'])
+    if not findings and kind in ('self_parent', 'empty_hierarchy', 'dup_child', 'dup_level'):
+        kind = 'none'
+    if kind == 'self_parent':        # S-9 witness: a level named twice, every node its own parent
+        return {'hierarchy': [H[-1], H[-1]], H[-1]: {n: [n] for n in t[H[-1]]}}
+    if kind == 'empty_hierarchy':
+        return {'hierarchy': []}
     lv = rng.choice(H)
     li = H.index(lv)
     nodes = list(t[lv].keys())
@@ -268,8 +288,260 @@ contract(
     # typing restriction of the blob model: the entry under 'hierarchy' is the level list, so it
     # cannot also be a node table (natively such a blob dies with AttributeError, see report)
     requires=[f"'hierarchy' not in {V_} or 'hierarchy' not in {VH}"],
-    ensures=KEYS_OK + WF_V,
-    raises={'RuntimeError': ('iff', f"'hierarchy' not in {V_} or " + _neg(KEYS_OK) + f" or not ({NODES_STR}) or "
-                             + _neg(WF_V))},
+    # normal return => wf_tree; RuntimeError => not wf_tree  (together: accepted iff well formed)
+    ensures=KEYS_OK + [NODES_STR] + WF_V,
+    raises={'RuntimeError': f"'hierarchy' not in {V_} or " + _neg(KEYS_OK) + f" or not ({NODES_STR}) or "
+                            + _neg(WF_V)},
     loops=_validate_loops(),
+)
+
+
+# ---------------------------------------------------------------------------------------------
+# small-scope exhaustive enumeration: every tree shape with <= 3 levels and <= 5 leaves
+# (shape = nested set partition of the leaves), in two namings (alphabetical order of the
+# node names agreeing / disagreeing with the structural order), optionally with one childless
+# internal node, rows 0..n-1 spread over the leaves
+# ---------------------------------------------------------------------------------------------
+def _set_partitions(items):
+    items = list(items)
+    if not items:
+        yield []
+        return
+    first, rest = items[0], items[1:]
+    for part in _set_partitions(rest):
+        for i in range(len(part)):
+            yield part[:i] + [[first] + part[i]] + part[i + 1:]
+        yield [[first]] + part
+
+
+def enum_trees(max_levels=3, max_leaves=5, childless=True):
+    level_names = [['cluster'], ['class', 'cluster'], ['class', 'subclass', 'cluster'],
+                   ['a', 'b', 'c', 'd']]
+    for n_levels in range(1, max_levels + 1):
+        H = level_names[n_levels - 1]
+        for n in range(1, max_leaves + 1):
+            for flip in (False, True):
+                def nm(li, j, cnt):
+                    j = cnt - 1 - j if flip else j
+                    return f"{'xyzw'[li]}{j}"
+                # groups[li] = list of blocks (lists of indices into level li+1)
+                def rec(li, items):
+                    """yield list of tables for levels li..0 given `items` node count at level li+1"""
+                    if li < 0:
+                        yield []
+                        return
+                    for part in _set_partitions(range(items)):
+                        for upper in rec(li - 1, len(part)):
+                            yield upper + [part]
+                for tables in rec(n_levels - 2, n):
+                    counts = [len(p) for p in tables] + [n]
+                    variants = [None]
+                    if childless and n_levels >= 2:
+                        variants.append(0)
+                    for extra in variants:
+                        tree = {'hierarchy': list(H)}
+                        for li, part in enumerate(tables):
+                            tab = {}
+                            for j, block in enumerate(part):
+                                tab[nm(li, j, counts[li])] = [nm(li + 1, c, counts[li + 1]) for c in block]
+                            if extra is not None and li == n_levels - 2:
+                                tab['zz_childless'] = []
+                            tree[H[li]] = tab
+                        if extra is not None and n_levels >= 3:
+                            # the childless node needs a parent one level up
+                            up = tree[H[n_levels - 3]]
+                            up[sorted(up)[0]].append('zz_childless')
+                        leaf = {}
+                        for j in range(n):
+                            leaf[nm(n_levels - 1, j, n)] = [j] if j % 2 == 0 else [100 + j, 200 + j]
+                        tree[H[-1]] = leaf
+                        yield tree
+
+
+# reference implementations used by the bounded clauses (independent of the code under test)
+def ref_children_chain(tree, level, node, target_level):
+    """nodes of target_level (at or below level) reachable from node, with multiplicity"""
+    H = tree['hierarchy']
+    k, kt = H.index(level), H.index(target_level)
+    frontier = [node]
+    for j in range(k, kt):
+        frontier = [c for p in frontier for c in tree[H[j]][p]]
+    return frontier
+
+
+def ref_leaves(tree, level, node):
+    return ref_children_chain(tree, level, node, tree['hierarchy'][-1])
+
+
+def ref_wf(tree):
+    """full wf_tree, by brute force"""
+    H = tree['hierarchy']
+    if len(H) < 1 or len(set(H)) != len(H) or 'hierarchy' in H:
+        return False
+    if set(tree) - {'metadata', 'name_mapper', 'hierarchy_mapper', 'hierarchy'} != set(H):
+        return False
+    for up, dn in zip(H[:-1], H[1:]):
+        listed = [c for p in tree[up] for c in tree[up][p]]
+        if len(listed) != len(set(listed)) or set(listed) != set(tree[dn]):
+            return False
+    rows = [r for leaf in tree[H[-1]] for r in tree[H[-1]][leaf]]
+    return len(rows) == len(set(rows))
+
+
+def ref_pairs(tree, parent_node):
+    H = tree['hierarchy']
+    if parent_node is None:
+        kids, lvl = list(tree[H[0]]), H[0]
+    elif parent_node[0] == H[-1]:
+        return set()
+    else:
+        kids, lvl = list(tree[parent_node[0]][parent_node[1]]), H[H.index(parent_node[0]) + 1]
+    out = set()
+    for i, c1 in enumerate(kids):
+        for c2 in kids[i + 1:]:
+            for x in ref_leaves(tree, lvl, c1):
+                for y in ref_leaves(tree, lvl, c2):
+                    out.add((min(x, y), max(x, y)))
+    return out
+
+
+REF_ENV = dict(ref_leaves=ref_leaves, ref_children_chain=ref_children_chain, ref_wf=ref_wf,
+               ref_pairs=ref_pairs, sorted=sorted, set=set, len=len, list=list, tuple=tuple, min=min, max=max)
+BOUND = "every tree shape with <= 3 levels and <= 5 leaves (nested set partitions), 2 namings, optional childless node"
+
+
+def _enum_nodes(size):
+    for t in enum_trees():
+        for lvl in t['hierarchy']:
+            for node in t[lvl]:
+                yield dict(tree=t, level=lvl, this_node=node)
+
+
+def _gen_nodes(rng, size):
+    t = gen_tree(rng, size + 2)
+    lvl = rng.choice(t['hierarchy'])
+    return dict(tree=t, level=lvl, this_node=rng.choice(list(t[lvl])))
+
+
+def _with_random(enum, gen, n_random=400, seed=11):
+    """small-scope exhaustive cases followed by seeded random larger ones"""
+    def it(size):
+        import random
+        yield from enum(size)
+        rng = random.Random(seed)
+        for _ in range(n_random):
+            yield gen(rng, 6)
+    return it
+
+
+def _child_level(tree, level):
+    H = tree['hierarchy']
+    return H[H.index(level) + 1]
+
+
+def _leaves_fn(tree, level, node):
+    from cell_type_mapper.taxonomy.utils import _get_leaves_from_tree
+    return _get_leaves_from_tree(tree=tree, level=level, this_node=node)
+
+
+LEAVES_ENV = dict(REF_ENV, child_level=_child_level, leaves_fn=_leaves_fn)
+
+# _get_leaves_from_tree: duplicate free, exactly the leaves below the node, and the children's
+# leaf lists partition it.  Bounded: the recursive contract needs an inductively defined
+# descendant relation (see report); the same clauses are executed exhaustively instead.
+contract(
+    M + '_get_leaves_from_tree',
+    properties=['C10', 'C12'],
+    mode='bounded',
+    native=dict(enumerate=_with_random(_enum_nodes, _gen_nodes), env=LEAVES_ENV, bound=BOUND,
+                max_enumerated=400000),
+    params=dict(tree='Tree', level='Name', this_node='Name'),
+    returns='List[Name]',
+    requires=["ref_wf(tree)", "level in tree['hierarchy']", "this_node in tree[level]"],
+    ensures=[
+        "dupfree(result)",
+        "set(result) == set(ref_leaves(tree, level, this_node))",
+        "len(result) == len(ref_leaves(tree, level, this_node))",
+        "all(x in tree[tree['hierarchy'][-1]] for x in result)",
+        # the children's leaf sets partition the node's leaf set
+        "level == tree['hierarchy'][-1] or sorted(result) == sorted("
+        "x for c in tree[level][this_node] for x in leaves_fn(tree, child_level(tree, level), c))",
+        "tree == old(tree)",
+    ],
+)
+
+
+def _enum_trees_kw(key):
+    def it(size):
+        for t in enum_trees():
+            yield {key: t}
+    return it
+
+
+contract(
+    M + 'convert_tree_to_leaves',
+    properties=['C10', 'C12'],
+    mode='bounded',
+    native=dict(enumerate=_with_random(_enum_trees_kw('taxonomy_tree'),
+                                       lambda rng, size: dict(taxonomy_tree=gen_tree(rng, size + 2))),
+                env=LEAVES_ENV, bound=BOUND),
+    params=dict(taxonomy_tree='Tree'),
+    returns='Dict[Name,Dict[Name,List[Name]]]',
+    requires=["ref_wf(taxonomy_tree)"],
+    ensures=[
+        "set(result) == set(taxonomy_tree['hierarchy'])",
+        "all(set(result[l]) == set(taxonomy_tree[l]) for l in taxonomy_tree['hierarchy'])",
+        "all(dupfree(result[l][n]) and set(result[l][n]) == set(ref_leaves(taxonomy_tree, l, n)) "
+        "for l in taxonomy_tree['hierarchy'] for n in taxonomy_tree[l])",
+        # at every level the leaf lists of the nodes partition the leaf set
+        "all(sorted(x for n in result[l] for x in result[l][n]) == "
+        "sorted(taxonomy_tree[taxonomy_tree['hierarchy'][-1]]) for l in taxonomy_tree['hierarchy'])",
+        "taxonomy_tree == old(taxonomy_tree)",
+    ],
+)
+
+
+def _parents_of(t):
+    H = t['hierarchy']
+    out = [None]
+    for lvl in H:                       # leaf-level parents included: the result must be []
+        for n in t[lvl]:
+            out.append((lvl, n))
+    return out
+
+
+def _enum_parents(size):
+    for t in enum_trees():
+        for p in _parents_of(t):
+            yield dict(taxonomy_tree=t, parent_node=p)
+
+
+def _gen_parents(rng, size):
+    t = gen_tree(rng, size + 2)
+    return dict(taxonomy_tree=t, parent_node=rng.choice(_parents_of(t)))
+
+
+# get_all_leaf_pairs (C10 last sentence, C12 "pairs to be discriminated"): exactly the unordered
+# pairs of leaves lying under two different children of the parent, each listed once,
+# alphabetised, labelled with the leaf level.  Needs the full wf_tree (S-10: with a repeated
+# child the pairs are listed more than once).
+contract(
+    M + 'get_all_leaf_pairs',
+    properties=['C10', 'C12'],
+    mode='bounded',
+    native=dict(enumerate=_with_random(_enum_parents, _gen_parents), env=LEAVES_ENV, bound=BOUND,
+                max_enumerated=400000),
+    params=dict(taxonomy_tree='Tree', parent_node='Opt[Tuple[Name,Name]]'),
+    returns='List[Tuple[Name,Name,Name]]',
+    requires=["ref_wf(taxonomy_tree)",
+              "parent_node is None or (parent_node[0] in taxonomy_tree['hierarchy'] and "
+              "parent_node[1] in taxonomy_tree[parent_node[0]])"],
+    ensures=[
+        "all(r[0] == taxonomy_tree['hierarchy'][-1] and r[1] < r[2] for r in result)",
+        "dupfree(result)",
+        "set((r[1], r[2]) for r in result) == ref_pairs(taxonomy_tree, parent_node)",
+        "len(result) == len(ref_pairs(taxonomy_tree, parent_node))",
+        "implies(parent_node is not None and parent_node[0] == taxonomy_tree['hierarchy'][-1], result == [])",
+        "taxonomy_tree == old(taxonomy_tree)",
+    ],
 )
